@@ -1847,3 +1847,45 @@ mod test {
         assert!(!cache.contains(&1));
     }
 }
+
+// ---------------------------------------------------------------------------------------------
+// verification hooks (feature `verif-hooks`): read-only views and state assembly.
+#[cfg(feature = "verif-hooks")]
+#[doc(hidden)]
+impl<K: Hash + Eq, V, RH: BuildHasher, FH: BuildHasher, GH: BuildHasher>
+    TwoQueueCache<K, V, RH, FH, GH>
+{
+    /// (recent, frequent, ghost)
+    #[allow(clippy::type_complexity)]
+    pub fn verif_parts(
+        &self,
+    ) -> (
+        &RawLRU<K, V, DefaultEvictCallback, RH>,
+        &RawLRU<K, V, DefaultEvictCallback, FH>,
+        &RawLRU<K, V, DefaultEvictCallback, GH>,
+    ) {
+        (&self.recent, &self.frequent, &self.ghost)
+    }
+
+    /// The recent-queue quota.
+    pub fn verif_recent_size(&self) -> usize {
+        self.recent_size
+    }
+
+    /// Assembles a cache from already built lists.
+    pub fn verif_from_parts(
+        size: usize,
+        recent_size: usize,
+        recent: RawLRU<K, V, DefaultEvictCallback, RH>,
+        frequent: RawLRU<K, V, DefaultEvictCallback, FH>,
+        ghost: RawLRU<K, V, DefaultEvictCallback, GH>,
+    ) -> Self {
+        Self {
+            size,
+            recent_size,
+            recent,
+            frequent,
+            ghost,
+        }
+    }
+}
